@@ -386,3 +386,148 @@ def check_diff_contiguity(ctx, fi, rule='R-IDIOM/contiguity-of-one'):
                '(its `diff` is empty, so the number of distinct steps is 0, '
                'not 1): a chunk that happens to hold a single item fails')
     return n
+
+
+def _empty_display(e):
+    if isinstance(e, (ast.List, ast.Tuple, ast.Set)) and not e.elts:
+        return True
+    if isinstance(e, ast.Dict) and not e.keys:
+        return True
+    if isinstance(e, ast.Call) and isinstance(e.func, ast.Name) \
+            and e.func.id in ('list', 'tuple', 'dict', 'set') \
+            and not e.args and not e.keywords:
+        return True
+    return False
+
+
+def check_partially_empty_return(ctx, fi,
+                                 rule='R-AGREE/partially-empty-return'):
+    """A function that returns tuples of parallel sequences (one entry per
+    cell, per row, ...) hands them to callers that iterate them together
+    (`zip`, a common index).  A return in which one position is an empty
+    display (`[]`, `()`, `list()`) while the other positions carry data --
+    and in which a sibling return of the same function fills that position
+    -- gives the caller sequences of different lengths: `zip` then stops at
+    once and the entries are silently dropped.  Returns that are empty in
+    every position ("nothing to do") and positions that are empty in every
+    return are not judged."""
+    from ..core.cfg import cfg_of
+    from ..core.defuse import rd_of
+    cfg = cfg_of(fi)
+    rd = rd_of(fi)
+    rets = []
+    for node in cfg.nodes:
+        if node.kind != 'return' or node.id not in rd.live \
+                or node.ast is None or not isinstance(
+                    node.ast.value, ast.Tuple):
+            continue
+        comps = []
+        for e in node.ast.value.elts:
+            v = e
+            if isinstance(e, ast.Name):
+                ds = rd.reaching(e.id, node.id)
+                vals = [d.value for d in ds if d.kind == 'assign'
+                        and not d.path and d.value is not None]
+                if len(vals) == 1 and len(ds) == 1:
+                    v = vals[0]
+            comps.append(v)
+        rets.append((node, comps))
+    arities = {len(c) for (_n, c) in rets}
+    if len(rets) < 2 or len(arities) != 1 or next(iter(arities)) < 2:
+        return 0
+    k = next(iter(arities))
+    n = 0
+    for (node, comps) in rets:
+        empties = [i for i in range(k) if _empty_display(comps[i])]
+        if not empties or len(empties) == k:
+            continue
+        scalars = [i for i in range(k) if isinstance(
+            comps[i], ast.Constant)]
+        if len(empties) + len(scalars) == k:
+            continue
+        for i in empties:
+            filled = [n2 for (n2, c2) in rets if n2 is not node
+                      and not _empty_display(c2[i])
+                      and not (isinstance(c2[i], ast.Constant)
+                               and c2[i].value is None)]
+            if not filled:
+                continue
+            n += 1
+            ctx.touch(fi)
+            ctx.fail(rule, f'{fi.qual}:return@{i}', fi.loc(node.ast),
+                     f'`{unparse(node.ast)[:70]}` returns an empty '
+                     f'sequence in position {i} next to positions that '
+                     f'carry data, while `{unparse(filled[0].ast)[:50]}` '
+                     'fills that position: callers that walk the returned '
+                     'sequences together stop at once and drop every '
+                     'entry')
+    return n
+
+
+def check_sentinel_codes_gather(ctx, fi, rule='R-IDIOM/sentinel-code-gather'):
+    """pandas marks a missing value of a categorical column with the code
+    -1.  Using the codes as a gather index (`categories[codes]`) reads the
+    *last* category for every missing value -- Python's negative index --
+    so cells without a label silently get a label, and a tree built from
+    those columns acquires parent-child links that occur nowhere in the
+    table.  A gather whose index derives from `.codes` is accepted only if
+    the same statement's value is masked on the sign of the codes
+    (`np.where(codes >= 0, ..., missing)` / `codes != -1`)."""
+    from ..core.slicing import backward_slice
+    n = 0
+    for st in ast.walk(fi.node):
+        if not isinstance(st, (ast.Assign, ast.Return, ast.Expr,
+                               ast.AugAssign)):
+            continue
+        v = getattr(st, 'value', None)
+        if v is None:
+            continue
+        for s in ast.walk(v):
+            if not (isinstance(s, ast.Subscript) and isinstance(
+                    getattr(s, 'ctx', None), ast.Load)):
+                continue
+            idx = s.slice
+            direct = any(isinstance(x, ast.Attribute) and x.attr == 'codes'
+                         for x in ast.walk(idx))
+            via = False
+            if not direct:
+                # through a local that was assigned the codes
+                for x in ast.walk(idx):
+                    if not isinstance(x, ast.Name):
+                        continue
+                    for d in ast.walk(fi.node):
+                        if isinstance(d, ast.Assign) and len(
+                                d.targets) == 1 and isinstance(
+                                    d.targets[0], ast.Name) \
+                                and d.targets[0].id == x.id and any(
+                                    isinstance(y, ast.Attribute)
+                                    and y.attr == 'codes'
+                                    for y in ast.walk(d.value)):
+                            via = True
+            if not (direct or via):
+                continue
+            # masked on the sign of the codes in the same statement?
+            masked = False
+            for c in ast.walk(v):
+                if isinstance(c, ast.Compare) and len(c.ops) == 1 \
+                        and isinstance(c.ops[0], (ast.GtE, ast.Gt, ast.Lt,
+                                                  ast.NotEq, ast.Eq)) \
+                        and isinstance(c.comparators[0], (ast.Constant,
+                                                          ast.UnaryOp)):
+                    names = {x.attr for x in ast.walk(c.left)
+                             if isinstance(x, ast.Attribute)}
+                    lnames = {x.id for x in ast.walk(c.left)
+                              if isinstance(x, ast.Name)}
+                    inames = {x.id for x in ast.walk(idx)
+                              if isinstance(x, ast.Name)}
+                    if 'codes' in names or (lnames & inames):
+                        masked = True
+            n += 1
+            ctx.touch(fi)
+            ctx.ob(rule, f'{fi.qual}:gather#{n - 1}', fi.loc(s), masked,
+                   'the gather by category codes is masked on their sign'
+                   if masked else
+                   f'`{unparse(s)[:60]}` gathers by pandas category codes '
+                   'without treating the code -1 (missing value): every '
+                   'missing label becomes the last category')
+    return n
